@@ -296,6 +296,54 @@ def log_params():
     return out
 
 
+def intr_params():
+    out = dict(gen='GenUnknown', drain='false', stop='false', bound='false', stopcancel='false')
+    pr = _src('runners/process.py')
+    w = _find(pr, 'ProcessRunner', 'wait')
+    if w is not None:
+        loops = [n for n in w.body if isinstance(n, ast.For) and ast.unparse(n.iter) == 'done']
+        if len(loops) == 1:
+            first = ast.unparse(loops[0].body[0])
+            src = ast.unparse(loops[0])
+            tries = [n for n in loops[0].body if isinstance(n, ast.Try)]
+            ki_through = (len(tries) == 1 and len(tries[0].handlers) >= 2
+                          and ast.unparse(tries[0].handlers[0].type or ast.Name('')) == 'KeyboardInterrupt'
+                          and len(tries[0].handlers[0].body) == 1 and isinstance(tries[0].handlers[0].body[0], ast.Raise)
+                          and tries[0].handlers[0].body[0].exc is None)
+            after = [ast.unparse(n) for n in w.body[w.body.index(loops[0]) + 1:]]
+            if first == 'task = self.future_to_task.pop(future)' and ki_through and not any('future_to_task' in a for a in after):
+                out['gen'] = 'PopFirst'
+            elif first == 'task = self.future_to_task[future]' and any(a.startswith('self.future_to_task = {') for a in after):
+                out['gen'] = 'PruneAfter'
+    run = _find(_src('lab.py'), 'TaskCoordinator', 'run')
+    if run is not None:
+        def swallows(stmt):
+            return (isinstance(stmt, ast.Try) and len(stmt.body) == 1 and ast.unparse(stmt.body[0]) == 'process_completed_tasks()'
+                    and len(stmt.handlers) == 1 and ast.unparse(stmt.handlers[0].type or ast.Name('')) == 'LabError'
+                    and all(isinstance(b, ast.Pass) for b in stmt.handlers[0].body))
+        for n in ast.walk(run):
+            if isinstance(n, ast.While) and ast.unparse(n.test) == 'runner.pending_task_count() > 0':
+                if len(n.body) == 1 and swallows(n.body[0]):
+                    out['drain'] = 'true'
+            if isinstance(n, ast.ExceptHandler) and ast.unparse(n.type or ast.Name('')) == 'KeyboardInterrupt' and n.name is None:
+                body = [b for b in n.body]
+                names = [ast.unparse(b) for b in body]
+                if 'runner.stop()' in names and any(swallows(b) for b in body) and isinstance(body[-1], ast.Raise):
+                    out['stop'] = 'true'
+                if 'runner.stop()' in names and 'runner.cancel()' in names and names.index('runner.cancel()') < names.index('runner.stop()'):
+                    out['stopcancel'] = 'true'
+    rl = _find(_src('runners/base.py'), 'run_or_load_task')
+    if rl is not None:
+        tries = [i for i, n in enumerate(rl.body) if isinstance(n, ast.Try)]
+        if len(tries) == 1:
+            before = [ast.unparse(n) for n in rl.body[:tries[0]]]
+            fin = ast.unparse(ast.Module(body=rl.body[tries[0]].finalbody, type_ignores=[]))
+            used = [nm for nm in ('current_process', 'orig_process_name') if nm in fin]
+            if all(any(b.startswith(nm + ' =') for b in before) for nm in used):
+                out['bound'] = 'true'
+    return out
+
+
 def render():
     sp = sched_params()
     lines = [
@@ -307,6 +355,12 @@ def render():
     vp = values_params()
     lines += ['Definition deser_mode_src : deser_mode := %(deser)s.' % vp,
               'Definition setstate_mode_src : setstate_mode := %(setstate)s.' % vp]
+    ipar = intr_params()
+    lines += ['Definition gen_mode_src : gen_mode := %(gen)s.' % ipar,
+              'Definition drain_swallows_src : bool := %(drain)s.' % ipar,
+              'Definition stop_swallows_src : bool := %(stop)s.' % ipar,
+              'Definition stop_cancels_src : bool := %(stopcancel)s.' % ipar,
+              'Definition finally_names_bound_src : bool := %(bound)s.' % ipar]
     lp = log_params()
     lines += ['Definition flush_mode_src : flush_mode := %(flush)s.' % lp,
               'Definition flush_before_result_src : bool := %(fb)s.' % lp,
